@@ -18,6 +18,7 @@ BASE = {
     "event_extra": False, "event_payload": "User", "event_name": "user-changed", "channel": False, "channel_type": "String", "noise": 0,
     "mode": "none", "type_mappings": True, "default_parameter_case": "camelCase", "default_field_case": "snake_case", "visualize_deps": False,
     "no_commands": False, "second_file": False, "private_field_type": "u32", "crate_field": False,
+    "cmd_rename_all": None, "param_serde_rename": None, "status_serde": True, "channel_name": "on_progress", "validator_range": None, "second_struct_field": "i32",
 }
 
 # edit classes: name -> function(state) (toggles, so that sequences compose); "affects": None=always, "zod"=only visible in zod mode
@@ -52,6 +53,12 @@ EDITS = [
     ("visualize_deps", lambda s: s.update(visualize_deps=not s["visualize_deps"])),
     ("retarget-private-field", lambda s: s.update(private_field_type="String" if s["private_field_type"] == "u32" else "u32")),
     ("add-remove-pub(crate)-field", lambda s: s.update(crate_field=not s["crate_field"])),
+    ("command-serde-rename_all", lambda s: s.update(cmd_rename_all=None if s["cmd_rename_all"] else "snake_case")),
+    ("parameter-serde-rename", lambda s: s.update(param_serde_rename=None if s["param_serde_rename"] else "theId")),
+    ("remove-restore-serde-derive", lambda s: s.update(status_serde=not s["status_serde"])),
+    ("rename-channel-parameter", lambda s: s.update(channel_name="on_update" if s["channel_name"] == "on_progress" else "on_progress", channel=True)),
+    ("validator-range-on-number", lambda s: s.update(validator_range=None if s["validator_range"] else (1, 99))),
+    ("retarget-field-of-nested-type", lambda s: s.update(second_struct_field="String" if s["second_struct_field"] == "i32" else "i32")),
     ("delete-generated-file:types.ts", "delete:types.ts"),
     ("delete-generated-file:commands.ts", "delete:commands.ts"),
     ("delete-generated-file:index.ts", "delete:index.ts"),
@@ -60,7 +67,7 @@ EDITS = [
     ("move-type-to-other-file", lambda s: s.update(second_file=not s["second_file"])),
     ("comment-noise(control)", lambda s: s.update(noise=s["noise"] + 1)),
 ]
-ZOD_ONLY = {"validator-value", "validator-message", "validator-email"}
+ZOD_ONLY = {"validator-value", "validator-message", "validator-email", "validator-range-on-number"}
 
 
 def render(s):
@@ -71,8 +78,9 @@ def render(s):
     if s["validator_msg"]:
         vargs += ', message = "%s"' % s["validator_msg"]
     vattr = "#[validate(length(%s)%s)]" % (vargs, ", email" if s["validator_email"] else "")
-    fields = [("id", "i32"), ("display_name", s["field_type"], fattrs + ([vattr] if s["field_type"] == "String" else [])),
-              ("home_dir", "PathBuf"), ("status", "Status")]
+    idattrs = ["#[validate(range(min = %d, max = %d))]" % s["validator_range"]] if s["validator_range"] else []
+    fields = [("id", "i32", idattrs), ("display_name", s["field_type"], fattrs + ([vattr] if s["field_type"] == "String" else [])),
+              ("home_dir", "PathBuf"), ("status", "Status"), ("address", "Option<Address>")]
     if s["field_extra"]:
         fields.append(("extra_field", "Option<bool>"))
     fields.append(("secret_token", "String", ["#[serde(skip)]"] if s["field_skip"] else []))
@@ -83,16 +91,21 @@ def render(s):
     variants = [("Active", ['#[serde(rename = "on")]'] if s["variant_rename"] else []), ("Disabled",)]
     if s["variant_extra"]:
         variants.append(("Pending",))
-    status = rg.enum_src("Status", variants, rename_all=s["enum_rename_all"])
+    status = rg.enum_src("Status", variants, rename_all=s["enum_rename_all"], derives="Serialize, Deserialize" if s["status_serde"] else None)
+    status += rg.struct_src("Address", [("street", "String"), ("number", s["second_struct_field"])])
     ptype = s["param_type"]
     if s["param_opt"]:
         ptype = "Option<%s>" % ptype
-    params = [(s["param_name"], ptype)]
+    pname = s["param_name"]
+    if s["param_serde_rename"]:
+        pname = '#[serde(rename = "%s")] %s' % (s["param_serde_rename"], pname)
+    params = [(pname, ptype)]
     if s["channel"]:
-        params.append(("on_progress", "Channel<%s>" % s["channel_type"]))
+        params.append((s["channel_name"], "Channel<%s>" % s["channel_type"]))
     cmds = ""
     if not s["no_commands"]:
-        cmds += rg.command_src(s["cmd_name"], params, s["ret_type"], is_async=s["is_async"])
+        cmds += rg.command_src(s["cmd_name"], params, s["ret_type"], is_async=s["is_async"],
+                               post_attrs=['#[serde(rename_all = "%s")]' % s["cmd_rename_all"]] if s["cmd_rename_all"] else ())
         cmds += rg.command_src("save_user", [("user", "User")], "Result<(), String>")
         if s["cmd_extra"]:
             cmds += rg.command_src("extra_cmd", [("flag", "bool")], "Status")
